@@ -327,7 +327,7 @@ def check(ctx):
             relinks = [m for m in gf.nodes if m.kind == "assign" and isinstance(m.ast, ast.Assign) and any(
                 isinstance(t, ast.Attribute) and t.attr == "_container" for t in m.ast.targets)]
             after = any(gf.path(n, lambda x, m=m: x is m, may_raise=lambda x: False, from_successors=True) for m in relinks)
-            ctx.ob("link.container-follows-items", f, n.ast, after,
+            ctx.ob("link.container-follows-items", f, "same-field fast path: items of another ListProxy copied by list.%s" % n.ast.func.attr, after,
                    "configurations copied from another proxy are re-linked to this one" if after else
                    "%s copies the items of another ListProxy as they are: configurations among them keep _container = the source list, so "
                    "their reported index is the one in a list the configuration may no longer hold" % f.qualname, node=n)
